@@ -373,7 +373,7 @@ func oracleOps(t *testing.T, opsPath, outPath string) {
 		switch {
 		case len(head) >= 4 && strings.HasPrefix(head[2], "joinx"):
 			w.Line("OK")
-		case len(head) >= 3 && (strings.HasPrefix(head[2], "misc") || strings.HasPrefix(head[2], "idxc")):
+		case len(head) >= 3 && (strings.HasPrefix(head[2], "misc") || strings.HasPrefix(head[2], "idxc") || strings.HasPrefix(head[2], "inf")):
 			w.Line("OK")
 		case len(head) >= 4 && strings.HasPrefix(head[2], "join"):
 			w.Line(oracleJoinCase(t, cs))
